@@ -286,6 +286,13 @@ class SummaryActions(object):
     self.docmodel.update(formula_fields + prev_group_fields,
                          colRef=[c.id for c in visible_formula_columns + prev_group_columns])
 
+    # A section may show the same column more than once: move the remaining fields as well.
+    moved = set(formula_fields + prev_group_fields)
+    new_cols = {c.colId: c for c in formula_columns + groupby_columns}
+    more_fields = [f for f in view_section.fields
+                   if f not in moved and f.colRef.parentId == orig_table and f.colRef.colId in new_cols]
+    self.docmodel.update(more_fields, colRef=[new_cols[f.colRef.colId].id for f in more_fields])
+
     # Finally, we need to create fields for newly-added group-by columns. If there were missing
     # fields for any group-by columns before, they'll be created now.
     new_group_columns = [c for c in groupby_columns if c not in prev_group_columns]
